@@ -52,6 +52,8 @@ def sym_line(vm, n, name):
         else:
             w = k; ms = R_BY_WIDTH[w]
             vm.assume(z3.Or(*[c == m for m in ms]) if len(ms) > 1 else c == ms[0]); vm.domains[c.get_id()] = set(ms)
+        if not hasattr(vm, 'cp_width'): vm.cp_width = {}
+        vm.cp_width[c.get_id()] = w
         cps.append(c); ws.append(w)
     return BStr(Buf(cps, ws))
 
